@@ -36,6 +36,25 @@ def outer():
         return key, 'only in a keyword default and the body', 'only in a keyword default and the body', b, 'only in a default and the body'
     return inner
 ''',
+    'class body that binds the first generated names and uses the literal directly': '''
+def make_paper_sizes():
+    class Paper:
+        A = 841
+        B = 1000
+        C = 1189
+        unit = 'millimetres long'
+        label = 'millimetres long'
+        def describe(self):
+            return 'millimetres long', 'millimetres long', self.A
+    return Paper, 'millimetres long'
+class Sheet:
+    _A = 1
+    _B = 2
+    kind = 'a sheet of paper'
+    other = 'a sheet of paper'
+    def text(self):
+        return 'a sheet of paper', 'a sheet of paper', 'a sheet of paper'
+''',
     'bytes, and a literal used at module level too': '''
 DATA = b'some binary payload'
 def f():
@@ -152,6 +171,51 @@ def dehoist(original_source, text):
                       [x for x in ast.walk(out) if isinstance(x, (ast.FunctionDef, ast.AsyncFunctionDef, ast.ClassDef, ast.Module))]):
         if ast.get_docstring(a_, clean=False) != ast.get_docstring(b_, clean=False):
             problems.append('the docstring of %s is no longer the first statement of its body' % getattr(a_, 'name', 'the module'))
+
+    # every use of an alias must resolve to the alias: no scope between the use and the scope that assigns the alias may bind the same name
+    # (a class body binds for the statements directly in it, a function for everything below it)
+    parents = {}
+    for n in ast.walk(out):
+        for c in ast.iter_child_nodes(n):
+            parents[id(c)] = n
+
+    def binds(scope_node, name):
+        if isinstance(scope_node, (ast.FunctionDef, ast.AsyncFunctionDef, ast.Lambda)):
+            a = scope_node.args
+            if any(p.arg == name for p in a.posonlyargs + a.args + a.kwonlyargs + [x for x in (a.vararg, a.kwarg) if x is not None]):
+                return True
+        body = scope_node.body if isinstance(scope_node.body, list) else [scope_node.body]
+        stack = list(body)
+        while stack:
+            x = stack.pop()
+            if isinstance(x, (ast.FunctionDef, ast.AsyncFunctionDef, ast.ClassDef)):
+                if x.name == name:
+                    return True
+                continue          # names bound inside it belong to it
+            if isinstance(x, ast.Lambda):
+                continue
+            if isinstance(x, ast.Name) and x.id == name and isinstance(x.ctx, (ast.Store, ast.Del)):
+                return True
+            if isinstance(x, ast.alias) and (x.asname or x.name.split('.')[0]) == name:
+                return True
+            if isinstance(x, ast.ExceptHandler) and x.name == name:
+                return True
+            stack.extend(ast.iter_child_nodes(x))
+        return False
+    for n in ast.walk(out):
+        if isinstance(n, ast.Name) and isinstance(n.ctx, ast.Load) and n.id in aliases:
+            owner = aliases[n.id][1]
+            cur, below_function = parents.get(id(n)), False
+            while cur is not None and cur is not owner:
+                if isinstance(cur, ast.ClassDef) and not below_function and binds(cur, n.id):
+                    problems.append('alias %s is used in the body of class %s, which binds a name %s of its own: the use means the class attribute, not the hoisted constant' % (n.id, cur.name, n.id))
+                    break
+                if isinstance(cur, (ast.FunctionDef, ast.AsyncFunctionDef, ast.Lambda)):
+                    if binds(cur, n.id):
+                        problems.append('alias %s is used inside %s, which binds a name %s of its own' % (n.id, getattr(cur, 'name', 'a lambda'), n.id))
+                        break
+                    below_function = True
+                cur = parents.get(id(cur))
 
     class Back(ast.NodeTransformer):
         def visit_Name(self, n):
